@@ -74,6 +74,27 @@ def faults(spec, poi):
                         else:
                             mm['data'][k] = resize(mm['data'][k])
                         yield 'modifier-data-length', 'channel %d sample %d %s/%s %s has %d entries for %d bins' % (ci, si, m['type'], m['name'], k or 'data', nb + d, nb), s2, poi
+    # F4b compensating sample-length errors: one sample a bin too long in one channel and a bin too short in another
+    for ci, c in enumerate(chans):
+        for cj, c2 in enumerate(chans):
+            if ci == cj:
+                continue
+            for si, s in enumerate(c['samples']):
+                for sj, t in enumerate(c2['samples']):
+                    if s['name'] == t['name'] and len(t['data']) > 1 and si > 0 and sj > 0:
+                        s2 = copy.deepcopy(spec)
+                        a = s2['channels'][ci]['samples'][si]
+                        b = s2['channels'][cj]['samples'][sj]
+                        a['data'] = a['data'] + [b['data'][-1]]
+                        b['data'] = b['data'][:-1]
+                        for smp in (a, b):       # keep each sample's own modifier data at the sample's new length
+                            for m in smp['modifiers']:
+                                n = len(smp['data'])
+                                if m['type'] == 'histosys':
+                                    m['data'] = {k: (v + [v[-1]])[:n] for k, v in m['data'].items()}
+                                elif m['type'] in ('shapesys', 'staterror'):
+                                    m['data'] = (m['data'] + [m['data'][-1]])[:n]
+                        yield 'sample-length', 'sample %s: one bin moved from channel %d to channel %d (total length unchanged)' % (s['name'], cj, ci), s2, poi
     # F5b compensating length errors of one histosys/staterror name across two channels (total length unchanged)
     for ci, c in enumerate(chans):
         for cj, c2 in enumerate(chans):
@@ -258,7 +279,7 @@ def run(ctx):
         if cl != 'pyhf-exception':
             base = c['cls'].split('+')[0]
             detail = ''
-            if base == 'modifier-data-length' and 'total length unchanged' in c['where']:
+            if base in ('modifier-data-length', 'sample-length') and 'total length unchanged' in c['where']:
                 detail = ':compensating'
             if base == 'lumi-without-settings' and 'lacks' in c['where']:
                 detail = ':' + c['where'].split()[-1]
